@@ -116,7 +116,11 @@ func run(c Case) (res ev.Result) {
 				}
 				ticksShared[abs][ti]++
 			case "meta":
-				tr.Add(e.Delta, smf.MetaMarker("x"))
+				if id%3 == 0 {
+					tr.Add(e.Delta, smf.MetaUndefined(0x4B, []byte{0x90, 0x40, 0x40})) // a meta type the library does not know
+				} else {
+					tr.Add(e.Delta, smf.MetaMarker("x"))
+				}
 			case "sysex":
 				tr.Add(e.Delta, []byte{0xF0, 0x7D, 0x01, 0xF7})
 			case "tempo":
